@@ -14,6 +14,12 @@ CLAIMED = {
             "DESIGN.md section 4 (C19)"),
 }
 
+for _pid, _title in [("C05","PrefixFS confinement"),("C14","PrefixFS re-rooting"),("C18","VolumeFS identity (Linux half)"),("C06","HiddenFS inaccessibility"),("C15","HiddenFS transparency"),("C11","HiddenFS listings/recursive operations")]:
+    CLAIMED[_pid] = ("Coq proof over the layer model (call transformers) + differential correspondence over a recording stub FS",
+        "Theorems in Coq about the executable model of the layer (every method, all path strings); the model is tied to the Go code by differential runs of every method over a recording stub filesystem and by exhaustive runs of the pure helpers; independent oracles are evaluated on the implementation. " + _title + ".",
+        "Trusted: Coq kernel, extraction (ExtrOcamlBasic), OCaml driver, Go harness with recording stub FS, python orchestrator; path/filepath modelled and validated exhaustively to a length bound. Lexical layer: symlinks in the underlying tree are outside this model (see DESIGN.md).",
+        "DESIGN.md section 4 (%s)" % _pid)
+
 WIP = {}
 
 def main():
